@@ -1,7 +1,7 @@
 ID = "C04"
 CLUSTER = "json"
 EXTRACT_V = "ExtractJson.v"
-MODEL_DEPS = ["Base/Bytes.v", "DM/Value.v", "Codec/Utf8.v", "Codec/Base64.v", "Codec/DagJson.v"]
+MODEL_DEPS = ["Base/Bytes.v", "Base/GoSem.v", "Gen/FromGo.v", "DM/Value.v", "Codec/Utf8.v", "Codec/Base64.v", "Codec/DagJson.v"]
 DRIVER = "c04_driver"
 HARNESS = "c04"
 COUNTS = {"quick": 2500, "thorough": 120000}
